@@ -226,7 +226,7 @@ def check_q5(ctx) -> None:
     repo = ctx.repo
     w = repo.function(MC, 'work_package')
     fw = [c for c in calls_in(w.node) if isinstance(c.func, ast.Attribute) and c.func.attr == 'write' and norm(c.func.value) == 'f']
-    ctx.check(len(fw) == 1 and norm(fw[0].args[0]) == 'input_file_entries', 'Q5', 'work_package/simulated-input=recorded-input',
+    ctx.check(len(fw) == 1 and norm(fw[0].args[0]) in ('input_file_entries', "'\\n' + input_file_entries"), 'Q5', 'work_package/simulated-input=recorded-input',
               f'{w.module.rel}:{fw[0].lineno if fw else w.node.lineno}',
               'the text appended to the simulated input file is not the same `input_file_entries` recorded in the row')
     cp = [c for c in calls_in(w.node) if dotted_name(c.func) == 'shutil.copyfile' and norm(c.args[0]) == 'args.Input_file']
